@@ -76,6 +76,18 @@ type c11XrdS struct {
 	Conversion      json.RawMessage   `json:"conversion"`
 	DefCUP          *string           `json:"defCUP"`
 	DefCDP          *string           `json:"defCDP"`
+	// metadata / status of the XRD object that say nothing about the derived CRDs or about what an
+	// update may change: the model does not read them (its Xrd has no such fields), so no
+	// derivation, validation or admission decision may depend on them
+	Meta *c11ObjMeta `json:"meta,omitempty"`
+}
+
+type c11ObjMeta struct {
+	Deleted     bool     `json:"deleted"`     // deletionTimestamp set (terminating, held by its finalizers)
+	Finalizers  []string `json:"finalizers"`  //
+	Paused      bool     `json:"paused"`      // crossplane.io/paused annotation
+	Generation  int64    `json:"generation"`  //
+	Established bool     `json:"established"` // status conditions Established / Offered = True
 }
 
 type c11Server struct {
@@ -99,6 +111,8 @@ type c11Scn struct {
 	// further requests handled afterwards by the SAME process: the same long-lived webhook
 	// validator and the same package-level derivation functions (their own `more` is ignored)
 	More []c11Scn `json:"more"`
+	// the definition / offered reconcilers WRITE the derived CRDs (c11_recon.go)
+	Recon *c11Recon `json:"recon,omitempty"`
 }
 
 // ---------------------------------------------------------------- observation
@@ -119,6 +133,7 @@ type c11Obs struct {
 	AdmitUpdate string    `json:"admitUpdate"` // "" when the scenario has no old XRD
 	CallsUpdate []string  `json:"callsUpdate"`
 	More        []c11Obs  `json:"more"`
+	Recon       any       `json:"recon"` // null without a recon part
 }
 
 // ---------------------------------------------------------------- building the real XRD
@@ -205,6 +220,22 @@ func c11Build(x c11XrdS) *v1.CompositeResourceDefinition {
 			Group: x.Group,
 			Names: c11NamesOf(x.Names),
 		},
+	}
+	if m := x.Meta; m != nil {
+		if m.Deleted {
+			t := metav1.Unix(1700000000, 0)
+			d.DeletionTimestamp = &t
+		}
+		if len(m.Finalizers) > 0 {
+			d.Finalizers = append([]string{}, m.Finalizers...)
+		}
+		if m.Paused {
+			d.Annotations["crossplane.io/paused"] = "true"
+		}
+		d.Generation = m.Generation
+		if m.Established {
+			d.Status.SetConditions(v1.WatchingComposite(), v1.WatchingClaim())
+		}
 	}
 	if x.ClaimNames != nil {
 		n := c11NamesOf(*x.ClaimNames)
@@ -668,6 +699,18 @@ func c11FillScn(s *c11Scn, nested bool) {
 			w.Acts = []c11Act{}
 		}
 	}
+	if nested || !c11Storable(s.Xrd) {
+		s.Recon = nil
+	}
+	if s.Recon != nil {
+		c11Fill(s.Recon.Prev)
+		if s.Recon.ExtraLabels == nil {
+			s.Recon.ExtraLabels = map[string]string{}
+		}
+		if s.Recon.ExtraAnnotations == nil {
+			s.Recon.ExtraAnnotations = map[string]string{}
+		}
+	}
 	if nested || s.More == nil {
 		s.More = []c11Scn{}
 	}
@@ -683,6 +726,11 @@ func c11FillScn(s *c11Scn, nested bool) {
 func c11Run(s c11Scn) (c11Obs, []Mon) {
 	h := c11NewHook()
 	obs, mons := c11RunStep(h, s)
+	if s.Recon != nil {
+		ro, rm := c11RunRecon(s.Xrd, *s.Recon)
+		obs.Recon = ro
+		mons = append(mons, rm...)
+	}
 	for i, m := range s.More {
 		o, ms := c11RunStep(h, m)
 		obs.More = append(obs.More, o)
@@ -839,6 +887,16 @@ func c11Class(s c11Scn, o c11Obs) string {
 	// call fails with an injected error class
 	if len(s.More) > 0 {
 		tags = append(tags, "seq")
+	}
+	// recon = the reconcilers write the CRDs over those of an earlier state; term = old or new XRD
+	// is terminating; meta = other metadata-only states (finalizers, paused, generation, conditions)
+	if s.Recon != nil {
+		tags = append(tags, "recon")
+	}
+	if (s.Xrd.Meta != nil && s.Xrd.Meta.Deleted) || (s.Old != nil && s.Old.Meta != nil && s.Old.Meta.Deleted) {
+		tags = append(tags, "term")
+	} else if s.Xrd.Meta != nil || (s.Old != nil && s.Old.Meta != nil) {
+		tags = append(tags, "meta")
 	}
 	race, lag, apierr := false, false, false
 	for _, w := range []*c11World{s.Server.WorldC, s.Server.WorldU} {
